@@ -7692,11 +7692,19 @@ fn eval_struct_value(
 
     let mut fields = vec![];
 
+    // Pop all the field values up front, so every error path can put
+    // them back in the order they were pushed.
+    let mut field_values = vec![];
+    for _ in field_exprs {
+        field_values.push(
+            env.pop_value()
+                .expect("Value stack should have sufficient items for the struct literal"),
+        );
+    }
+    let saved_values: Vec<Value> = field_values.iter().rev().cloned().collect();
+
     let type_bindings = env.current_frame().type_bindings.clone();
-    for (field_sym, field_expr) in field_exprs {
-        let field_value = env
-            .pop_value()
-            .expect("Value stack should have sufficient items for the struct literal");
+    for ((field_sym, field_expr), field_value) in field_exprs.iter().zip(field_values) {
 
         let Some(field_info) = expected_fields_by_name.remove(&field_sym.name) else {
             // TODO: this would be a good candidate for additional
@@ -7708,7 +7716,7 @@ fn eval_struct_value(
             ))]);
 
             return Err((
-                RestoreValues(vec![]), // TODO
+                RestoreValues(saved_values),
                 EvalError::Exception(ExceptionInfo {
                     position: field_sym.position.clone(),
                     message,
@@ -7727,7 +7735,7 @@ fn eval_struct_value(
             Type::from_hint(&field_info.hint, &env.types, &type_bindings).unwrap_or_err_ty();
         if let Err(msg) = check_type(&field_value, &expected_ty, env) {
             return Err((
-                RestoreValues(vec![]), // TODO
+                RestoreValues(saved_values),
                 EvalError::Exception(ExceptionInfo {
                     position: field_expr.position.clone(),
                     message: ErrorMessage(vec![Text(format!(
@@ -7754,7 +7762,7 @@ fn eval_struct_value(
         ))]);
 
         return Err((
-            RestoreValues(vec![]), // TODO
+            RestoreValues(saved_values),
             EvalError::Exception(ExceptionInfo {
                 position: outer_expr_pos.clone(),
                 message,
